@@ -40,10 +40,15 @@ type B struct {
 type Person struct {
 	Id int64
 }
+// C is a union member without a key field
+type C struct {
+	Z string
+}
 type U struct {
 	schemabuilder.Union
 	*A
 	*B
+	*C
 }
 
 // state is the (immutable) content of the store.
@@ -99,6 +104,14 @@ var changes = []struct {
 			s.Kind = "B"
 		} else {
 			s.Kind = "A"
+		}
+		return s
+	}},
+	{"union-plain", func(s state) state { // to the keyless member and back to a keyed one
+		if s.Kind == "C" {
+			s.Kind = "A"
+		} else {
+			s.Kind = "C"
 		}
 		return s
 	}},
@@ -257,6 +270,8 @@ func (w *world) buildSchema() *graphql.Schema {
 			return &U{A: &A{Id: 7, X: "x"}}
 		case "B":
 			return &U{B: &B{Id: 8, Y: 9}}
+		case "C":
+			return &U{C: &C{Z: "plain"}}
 		}
 		return nil
 	})
@@ -317,6 +332,7 @@ func (w *world) buildSchema() *graphql.Schema {
 	node.Key("id")
 	s.Object("A", A{}).Key("id")
 	s.Object("B", B{}).Key("id")
+	s.Object("C", C{})
 	m := s.Mutation()
 	m.FieldFunc("setFlag", func(ctx context.Context, args struct{ V int64 }) int64 {
 		w.st.Update(func(s state) state { s.Flag = args.V; return s })
